@@ -24,6 +24,13 @@ Contract checked at run time on the REAL functions (`_iter_chunked`, `_body_read
                        header value is a case-insensitive comma list with optional white space (RFC 7230 3.3.1 / 7).
                        End-to-end cases (X1/X2/X3/X6, same demands) are therefore repeated with the header spelled in
                        every way listed in TE_SPELLINGS (case key `te`; absent = the plain 'chunked').
+  X7 copies            the body reached through Request.copy() is still "the body presented to the application" (case key
+                       `access`): 'copy-after' = the handler accesses request.body, then request.copy().body, the body of a
+                       copy of that copy, the copy again and the original again; 'copy-first' = the copy is taken before
+                       anything was accessed and only the copy, its copy and a second copy are read.  A refusal is swallowed
+                       by the handler before it asks the next object.  All of them must show the SAME outcome (the same
+                       bytes, or a client error each: X7.copy_differs) and that outcome is judged by X1/X2/X3 as before --
+                       a copy never presents a re-decoded / shifted / mid-stream body and never turns a refusal into a body.
 """
 import itertools
 import random
@@ -42,7 +49,10 @@ BOUND = ('legal encodings: payload pieces over {a,CR,LF,0,;} (all payloads of le
          'no-CRLF variant; buffer 16, full reads and 1-byte reads for the legal wire) x the header value in {chunked, '
          'Chunked, CHUNKED, chUNked, "gzip,chunked", "gzip, chunked", "gzip , chunked", "gzip,<TAB>chunked", '
          '"x-custom, Chunked", "gzip, deflate, chunked", "GZIP,  CHUNKED", "identity,chunked"} (chunked always the final '
-         'coding); seeded random larger encodings with a random spelling. Exhaustive over that listed space '
+         'coding); seeded random larger encodings with a random spelling. Request.copy() (X7): the core encodings with size '
+         'spelling x, chunk-ext {none, ;x} plus two payloads that themselves look like a chunked encoding: legal wire (buffer 5 and '
+         '16, full and 1-byte reads), EVERY strict prefix, every no-CRLF variant x access {original then copy then copy of copy '
+         'then both again; copy taken before any access, only copies read}. Exhaustive over that listed space '
          'except the seeded random part.')
 NONTRIVIAL_RULE = ('distinct (kind, level, encoding parameters, cut/substitution, buffer, fragmentation); non-trivial = the wire '
                    'holds at least one non-empty chunk, or (small-scope strings) at least one CRLF')
@@ -203,6 +213,9 @@ def gen_cases(tier, seed):
             for k in range(len(enc['pieces'])):
                 for how in ('XY', 'drop_cr', 'drop_lf', 'drop_both', 'swap'):
                     yield dict(kind='nocrlf', level='app', buff=16, cycle=[], k=k, how=how, te=te, **enc)
+    # 6. the body through Request.copy(): after the original was accessed (also when it was refused) / instead of it
+    for c in gen_copy_cases(tier):
+        yield c
     rnd = random.Random(seed + 5)
     for _ in range(300 if quick else 4000):
         pieces = [bytes(rnd.choice(b'a\r\n0;\xffZ') for _ in range(rnd.choice([1, 2, 3, 15, 16, 17, 40, 300])))
@@ -215,6 +228,28 @@ def gen_cases(tier, seed):
         yield dict(kind='legal', level='app', buff=buff, cycle=cyc, te=te, **enc)
         e = cs.encode(pieces, enc['fmt'], enc['ext'], enc['zero'], None, enc['trailer'])
         yield dict(kind='prefix', level='app', buff=buff, cycle=cyc, cut=rnd.randrange(0, len(e['wire'])), te=te, **enc)
+
+
+LOOKALIKE = [[b'3\r\nabc\r\n0\r\n\r\n'], [b'1\r\nZ\r\n', b'0\r\n\r\n'], [b'5\r\nhello\r\n0\r\n\r\n', b'2\r\nab\r\n']]
+
+
+def gen_copy_cases(tier):
+    encs = [e for e in _encodings(tier, core=True) if e['fmt'] == '{:x}' and e['ext'] in ('', ';x')]
+    for pieces in LOOKALIKE:
+        for ext in ('', ';x'):
+            encs.append(dict(pieces=pieces, fmt='{:x}', ext=ext, zero='0', trailer=b''))
+    for enc in encs:
+        e = cs.encode(enc['pieces'], enc['fmt'], enc['ext'], enc['zero'], None, enc['trailer'])
+        n = len(e['wire'])
+        for access in ('copy-after', 'copy-first'):
+            for buff in (5, 16):
+                for cyc in ([], [1]):
+                    yield dict(kind='legal', level='app', buff=buff, cycle=cyc, access=access, **enc)
+            for cut in range(0, n):
+                yield dict(kind='prefix', level='app', buff=16, cycle=[], cut=cut, access=access, **enc)
+            for k in range(len(enc['pieces'])):
+                for how in ('XY', 'drop_cr', 'drop_lf', 'drop_both', 'swap'):
+                    yield dict(kind='nocrlf', level='app', buff=16, cycle=[], k=k, how=how, access=access, **enc)
 
 
 # ---------------------------------------------------------------------------------------------------------
@@ -323,9 +358,17 @@ def run_case(case):
         def h():
             # the body is accessed twice: a refusal must not turn into a (partial / shifted) body on a later access
             outcomes = []
-            for _k in range(2):
+            req = app.request
+            if case.get('access') == 'copy-after':
+                objs = [lambda: req, lambda: req.copy(), lambda: req.copy().copy(), lambda: req.copy(), lambda: req]
+            elif case.get('access') == 'copy-first':
+                c = req.copy()
+                objs = [lambda: c, lambda: c.copy(), lambda: c.copy(), lambda: c]
+            else:
+                objs = [lambda: req, lambda: req]
+            for get in objs:
                 try:
-                    outcomes.append(('ok', app.request.body.read()))
+                    outcomes.append(('ok', get().body.read()))
                 except ombott.HTTPError as e:
                     outcomes.append(('err', e.status_code))
             seen['outcomes'] = outcomes
@@ -342,6 +385,9 @@ def run_case(case):
         res = serve(app, env)
         status = res.status
         oc = seen.get('outcomes') or []
+        if case.get('access') and any(o != oc[0] for o in oc):
+            return fail('X7.copy_differs', access=case['access'], outcomes=oc, wire=wire, status=status,
+                        short_read=_short_read(stream), **info)
         if len(oc) == 2 and oc[0] != oc[1]:
             return fail('X6.second_access_differs', outcomes=oc, wire=wire, status=status, short_read=_short_read(stream), **info)
         if res.exc is not None:
